@@ -42,6 +42,11 @@ static unsigned char *mutate(const pkt_t *p,const char *mut,long *bytes,link_t *
   else if(mut&&!strcmp(mut,"m=hdr")){ free(b); n=L->pk[0].bytes; b=malloc(n+16); memcpy(b,L->pk[0].data,n); }
   *bytes=n; return b;
 }
+static unsigned char *pack_fields(char **tok,int from,int nt,long *bytes){
+  oggpack_buffer o; oggpack_writeinit(&o);
+  for(int i=from;i<nt;i++){ long v=0; int n=0; if(sscanf(tok[i],"%ld:%d",&v,&n)==2&&n>0&&n<=32) oggpack_write(&o,(unsigned long)v,n); }
+  *bytes=oggpack_bytes(&o); unsigned char *b=malloc(*bytes+16); memcpy(b,oggpack_get_buffer(&o),*bytes); memset(b+*bytes,0,16); oggpack_writeclear(&o); return b;
+}
 static const char *find_opt(char **tok,int nt,const char *key){ size_t kl=strlen(key); for(int i=0;i<nt;i++) if(!strncmp(tok[i],key,kl)) return tok[i]+kl; return NULL; }
 static const char *find_mut(char **tok,int nt){ for(int i=0;i<nt;i++) if(!strncmp(tok[i],"m=",2)) return tok[i]; return NULL; }
 
@@ -54,8 +59,9 @@ static void ev_dst(dec_t *x){
 static void cmd(char **tok,int nt){
   const char *c=tok[0]; if(nt<2) return; int di=atoi(tok[1]); if(di<0||di>=ND) return; dec_t *x=&D[di];
   /* documented caller contract: objects are initialised before use; dsp/block calls only after a successful synthesis_init */
-  int need_init=(!strcmp(c,"psyn")||!strcmp(c,"ptrk")||!strcmp(c,"pblk")||!strcmp(c,"pout")||!strcmp(c,"pread")||!strcmp(c,"prest")||!strcmp(c,"plap"));
-  if((need_init&&!x->inited)||((!strcmp(c,"phdr")||!strcmp(c,"pinit")||!strcmp(c,"phr"))&&x->s_vi!=1)||(!strcmp(c,"pinit")&&x->inited)||(!strcmp(c,"pnew")&&x->s_vi==1)){
+  if((!strcmp(c,"phdr")||!strcmp(c,"psyn")||!strcmp(c,"ptrk"))&&!x->L){ ev_begin("Skip"); ev_i("d",di); ev_s("cmd",c); ev_end(); return; }
+  int need_init=(!strcmp(c,"saud")||!strcmp(c,"srand")||!strcmp(c,"psyn")||!strcmp(c,"ptrk")||!strcmp(c,"pblk")||!strcmp(c,"pout")||!strcmp(c,"pread")||!strcmp(c,"prest")||!strcmp(c,"plap"));
+  if((need_init&&!x->inited)||((!strcmp(c,"phdr")||!strcmp(c,"shdr")||!strcmp(c,"scom")||!strcmp(c,"pinit")||!strcmp(c,"phr"))&&x->s_vi!=1)||(!strcmp(c,"pinit")&&x->inited)||((!strcmp(c,"pnew")||!strcmp(c,"snew"))&&x->s_vi==1)){
     ev_begin("Skip"); ev_i("d",di); ev_s("cmd",c); ev_end(); return; }
   if(!strcmp(c,"pnew")&&nt>=3){ int li=atoi(tok[2]); if(li<0||li>=MAXLINK||!g_links[li]) return; memset(x,0,sizeof *x); x->L=g_links[li]; vorbis_info_init(&x->vi); vorbis_comment_init(&x->vc); x->s_vi=x->s_vc=1; x->lastk=-1;
     ev_begin("PNew"); ev_i("d",di); ev_i("link",li); ev_i("bs0",x->L->bs0); ev_i("bs1",x->L->bs1); ev_i("ch",x->L->ch); ev_i("na",x->L->npk-3); ev_i("N",x->L->nref); ev_i("Nh",x->L->refh?x->L->nrefh:-1); ev_end(); }
@@ -98,6 +104,29 @@ static void cmd(char **tok,int nt){
   else if(!strcmp(c,"pread")&&nt>=3){ int n=atoi(tok[2]); if(n<0) n=vorbis_synthesis_pcmout(&x->vd,NULL); int ret=vorbis_synthesis_read(&x->vd,n); ev_begin("ReadP"); ev_i("d",di); ev_i("n",n); ev_i("ret",ret); ev_dst(x); ev_end(); }
   else if(!strcmp(c,"prest")){ int ret=vorbis_synthesis_restart(&x->vd); x->lastk=-1; x->hs=vorbis_synthesis_halfrate_p(&x->vi); ev_begin("Restart"); ev_i("d",di); ev_i("ret",ret); ev_dst(x); ev_end(); }
   else if(!strcmp(c,"plap")){ float **pcm; int n=vorbis_synthesis_lapout(&x->vd,&pcm); ev_begin("LapOut"); ev_i("d",di); ev_i("n",n); ev_dst(x); ev_end(); }
+  else if(!strcmp(c,"snew")&&nt>=5){ memset(x,0,sizeof *x); vorbis_info_init(&x->vi); vorbis_comment_init(&x->vc); x->s_vi=x->s_vc=1; x->lastk=-1; x->L=NULL;
+    ev_begin("PNew"); ev_i("d",di); ev_i("link",-1); ev_i("bs0",atol(tok[2])); ev_i("bs1",atol(tok[3])); ev_i("ch",atoi(tok[4])); ev_i("na",0); ev_i("N",0); ev_i("Nh",0); ev_end(); }
+  else if(!strcmp(c,"shdr")&&nt>=4){ int which=atoi(tok[2]); int ok=atoi(tok[3]); long nb; unsigned char *b=pack_fields(tok,4,nt,&nb);
+    ogg_packet op; memset(&op,0,sizeof op); op.packet=b; op.bytes=nb; op.b_o_s=(which==0); op.packetno=which;
+    int ret=vorbis_synthesis_headerin(&x->vi,&x->vc,&op); free(b); if(ret==0&&ok&&which==x->nh) x->nh++;
+    ev_begin("HeaderIn"); ev_i("d",di); ev_i("which",which); ev_i("mut",!ok); ev_i("ret",ret); ev_i("vch",x->vi.channels); ev_i("vrate",x->vi.rate); ev_i("vcs",x->vi.codec_setup!=NULL); ev_i("ncm",x->vc.comments); ev_i("ven",x->vc.vendor!=NULL); ev_i("syn",1); ev_dst(x); ev_end(); }
+  else if(!strcmp(c,"scom")){ vorbis_comment t; vorbis_comment_init(&t); ogg_packet op; memset(&op,0,sizeof op); int ro=vorbis_commentheader_out(&t,&op); int ret=-9999; if(ro==0){ ret=vorbis_synthesis_headerin(&x->vi,&x->vc,&op); ogg_packet_clear(&op); } vorbis_comment_clear(&t);
+    if(ret==0&&x->nh==1) x->nh++;
+    ev_begin("HeaderIn"); ev_i("d",di); ev_i("which",1); ev_i("mut",0); ev_i("ret",ret); ev_i("vch",x->vi.channels); ev_i("vrate",x->vi.rate); ev_i("vcs",x->vi.codec_setup!=NULL); ev_i("ncm",x->vc.comments); ev_i("ven",x->vc.vendor!=NULL); ev_i("syn",1); ev_dst(x); ev_end(); }
+  else if((!strcmp(c,"saud")&&nt>=6)||(!strcmp(c,"srand")&&nt>=6)){
+    int rnd=c[1]=='r'; int k=atoi(tok[2]); long nb; unsigned char *b; int W; long long gp; int eos=0;
+    if(rnd){ rng_t r; r.s=(uint64_t)atol(tok[3])*7919+1; nb=atol(tok[4]); if(nb<1)nb=1; b=malloc(nb+16); for(long i=0;i<nb;i++) b[i]=(unsigned char)rng_u32(&r); b[0]&=0xFE; memset(b+nb,0,16); W=0; gp=atoll(tok[5]); }
+    else { W=atoi(tok[3]); gp=atoll(tok[4]); eos=atoi(tok[5]); b=pack_fields(tok,6,nt,&nb); }
+    ogg_packet op; memset(&op,0,sizeof op); op.packet=b; op.bytes=nb; op.packetno=3+k; op.granulepos=gp; op.e_o_s=eos;
+    int rs=vorbis_synthesis(&x->vb,&op); long used=oggpack_bits(&x->vb.opb); int rW=x->vb.W; int rb=-9999; if(rs==0) rb=vorbis_synthesis_blockin(&x->vd,&x->vb); free(b);
+    ev_begin("Synthesis"); ev_i("d",di); ev_i("k",k); ev_i("mut",rnd); ev_i("W",rs==0?rW:W); ev_i("cW",rnd?(rs==0?rW:W):W); ev_i("no",op.packetno); ev_i("gp",op.granulepos); ev_i("eos",op.e_o_s); ev_i("bytes",nb);
+    ev_i("rs",rs); ev_i("used",used); ev_i("rb",rb); ev_i("gpf",0); ev_i("syn",1); ev_dst(x); ev_end();
+    if(rs==0&&rb==0){ x->lastk=k; }
+    /* hand the samples out: a silent spectrum must give exact silence */
+    float **pcm=NULL; int n=vorbis_synthesis_pcmout(&x->vd,&pcm); int zero=1; if(n>0) for(int ch=0;ch<x->vi.channels&&zero;ch++) for(int i=0;i<n;i++) if(pcm[ch][i]!=0.0f){ zero=0; break; }
+    ev_begin("PcmOut"); ev_i("d",di); ev_i("n",n); ev_i("k",x->lastk); ev_i("cn",rnd?-1:n); ev_i("cmp",rnd?0:(zero?0:3)); ev_i("hs",x->hs); ev_i("syn",1); ev_dst(x); ev_end();
+    if(n>0){ int rr=vorbis_synthesis_read(&x->vd,n); ev_begin("ReadP"); ev_i("d",di); ev_i("n",n); ev_i("ret",rr); ev_dst(x); ev_end(); }
+  }
   else if(!strcmp(c,"pclr")&&nt>=3){
     for(const char *o=tok[2];*o;o++){
       if(*o=='b'){ int r=vorbis_block_clear(&x->vb); x->s_vb=2; x->inited=0; ev_begin("BlockClear"); ev_i("d",di); ev_i("ret",r); ev_end(); }
